@@ -856,8 +856,45 @@ func TestC09StraceHelper(t *testing.T) {
 	os.Exit(0)
 }
 
+// leftoverTmp: an earlier write was interrupted after its temporary file had been filled (the code leaves that
+// file behind on purpose); later writes of shorter and longer lists must still publish a file that parses to
+// exactly what was written.
+func leftoverTmp(run *vt.Run) {
+	dir, err := os.MkdirTemp(vt.WorkDir(), "c09-tmp-")
+	if err != nil {
+		run.Inconclusive(err.Error())
+		return
+	}
+	defer os.RemoveAll(dir)
+	c := vt.CaseID{Gen: "leftover-tmp", Seed: vt.Seed()}
+	for i, lens := range [][2]int{{300, 4}, {300, 0}, {4, 300}, {128, 128}, {512, 1}} {
+		path := filepath.Join(dir, fmt.Sprintf("tokens-%d", i))
+		left, _ := helperTokens(4_000_000_000-uint32(i), lens[0]).Marshal()
+		if err := os.WriteFile(path+".tmp", left, 0o666); err != nil {
+			run.Inconclusive(err.Error())
+			return
+		}
+		want := helperTokens(7, lens[1])
+		if err := want.StoreToFile(path); err != nil {
+			run.Violation(c, "tokens-file/store-failed-over-leftover-tmp", "StoreToFile failed although only a leftover temporary file was in the way: "+err.Error(), map[string]any{"leftover_tokens": lens[0], "written_tokens": lens[1]})
+			continue
+		}
+		run.Eval(fmt.Sprintf("leftover-tmp|%v", lens), true)
+		b, _ := os.ReadFile(path)
+		got, err := ring.LoadTokensFromFile(path)
+		if err != nil {
+			run.Violation(c, "tokens-file-corrupt", "after a write over a leftover temporary file the tokens file does not parse: "+err.Error(), map[string]any{"leftover_tokens": lens[0], "written_tokens": lens[1], "content_head": string(b[:min(len(b), 120)])})
+			continue
+		}
+		if tokensStr(got) != tokensStr(want) {
+			run.Violation(c, "tokens-file-partial", "after a write over a leftover temporary file the tokens file holds another list than the one written", map[string]any{"leftover_tokens": lens[0], "written_tokens": lens[1]})
+		}
+	}
+}
+
 func TestC09Strace(t *testing.T) {
 	run := vt.NewRun("C09", "fault_enumeration")
+	leftoverTmp(run)
 	run.SetRule("tokens file: a child process rewrites an existing tokens file through Tokens.StoreToFile while strace injects an error (ENOSPC, EIO, EDQUOT) or SIGKILL at the k-th openat / write / close / rename system call that touches the file or its temporary; afterwards the file must parse and hold either the complete old or the complete new list.")
 	self := os.Getenv("VERIF_BIN")
 	if self == "" {
